@@ -750,4 +750,89 @@ pub proof fn lemma_ratio_effect_zero(tx: GbpTransaction)
     }
 }
 
+
+// ---------- C05.sound: the holding of a security as a function of the line list alone ----------
+pub open spec fn hq(m: Map<Seq<char>, Decimal>, t: Seq<char>) -> real { if m.contains_key(t) { m[t].v() } else { 0real } }
+pub open spec fn is_day_start(txs: Seq<GbpTransaction>, j: int) -> bool { j <= 0 || j >= txs.len() || txs[j - 1].date.d() != txs[j].date.d() }
+/// (shares, factor of the current day's splits) after the first n lines of a date-ordered list: purchases add, sales subtract, and a
+/// SPLIT/UNSPLIT takes effect at the end of its day (the factor is folded into the share count when the next day begins)
+pub open spec fn net_state(txs: Seq<GbpTransaction>, n: int, t: Seq<char>) -> (real, real)
+    decreases n
+{
+    if n <= 0 || n > txs.len() { (0real, 1real) } else {
+        let s0 = net_state(txs, n - 1, t); let j = n - 1; let tx = txs[j];
+        let q = if is_day_start(txs, j) { s0.0 * s0.1 } else { s0.0 };
+        let f = if is_day_start(txs, j) { 1real } else { s0.1 };
+        if tx.ticker@ != t { (q, f) } else {
+            match tx.operation {
+                Operation::Buy { amount, .. } => (q + amount.v(), f),
+                Operation::Sell { amount, .. } => (q - amount.v(), f),
+                _ => (q, ratio_effect(tx, f)),
+            }
+        }
+    }
+}
+/// shares of t held after the first n lines, in the units current once the splits seen so far have taken effect
+pub open spec fn net_total(txs: Seq<GbpTransaction>, n: int, t: Seq<char>) -> real { net_state(txs, n, t).0 * net_state(txs, n, t).1 }
+/// C05: at the close of every day among the first n lines, the shares of every security acquired to date cover those sold to date
+pub open spec fn covered_upto(txs: Seq<GbpTransaction>, n: int) -> bool {
+    forall|e: int, t: Seq<char>| 0 < e <= n && e <= txs.len() && is_day_start(txs, e) ==> #[trigger] net_total(txs, e, t) >= 0real
+}
+pub open spec fn f_buy_t(txs: Seq<GbpTransaction>, t: Seq<char>) -> spec_fn(int) -> real {
+    |k: int| if 0 <= k < txs.len() && txs[k].operation is Buy && txs[k].ticker@ == t { buy_qty(txs[k]) } else { 0real }
+}
+pub open spec fn f_sell_t(txs: Seq<GbpTransaction>, t: Seq<char>) -> spec_fn(int) -> real {
+    |k: int| if 0 <= k < txs.len() && txs[k].operation is Sell && txs[k].ticker@ == t { sell_qty(txs[k]) } else { 0real }
+}
+pub open spec fn bought_in(txs: Seq<GbpTransaction>, a: int, b: int, t: Seq<char>) -> real { isum(b, f_buy_t(txs, t)) - isum(a, f_buy_t(txs, t)) }
+pub open spec fn sold_in(txs: Seq<GbpTransaction>, a: int, b: int, t: Seq<char>) -> real { isum(b, f_sell_t(txs, t)) - isum(a, f_sell_t(txs, t)) }
+/// holding of t at the close of the day's trading (lines i..e), before the day's splits take effect
+pub open spec fn hbase(txs: Seq<GbpTransaction>, i: int, e: int, t: Seq<char>) -> real { net_total(txs, i, t) + bought_in(txs, i, e, t) - sold_in(txs, i, e, t) }
+/// composition of the SPLIT/UNSPLIT lines of t among lines a..b, applied to 1
+pub open spec fn dfac(txs: Seq<GbpTransaction>, a: int, b: int, t: Seq<char>) -> real
+    decreases b - a
+{
+    if b <= a || b > txs.len() || a < 0 { 1real } else { let c = dfac(txs, a, b - 1, t); if txs[b - 1].ticker@ == t { ratio_effect(txs[b - 1], c) } else { c } }
+}
+pub proof fn lemma_dfac_pos(txs: Seq<GbpTransaction>, a: int, b: int, t: Seq<char>)
+    requires ratios_pos(txs)
+    ensures dfac(txs, a, b, t) > 0real
+    decreases b - a
+{
+    if b <= a || b > txs.len() || a < 0 {} else {
+        lemma_dfac_pos(txs, a, b - 1, t);
+        let c = dfac(txs, a, b - 1, t); let tx = txs[b - 1];
+        match tx.operation {
+            Operation::Split { ratio } => { let r = ratio.v(); assert(c * r > 0real) by(nonlinear_arith) requires c > 0real, r > 0real; }
+            Operation::Unsplit { ratio } => { let r = ratio.v(); assert(c / r > 0real) by(nonlinear_arith) requires c > 0real, r > 0real; }
+            _ => {}
+        }
+    }
+}
+/// within one day (lines i..n, i the day's first line) the state is: opening holding + bought - sold, and the day's split factor
+pub proof fn lemma_net_day(txs: Seq<GbpTransaction>, i: int, n: int, t: Seq<char>)
+    requires 0 <= i < n <= txs.len(), is_day_start(txs, i), forall|j: int| i < j < n ==> !is_day_start(txs, j)
+    ensures net_state(txs, n, t) == (net_total(txs, i, t) + bought_in(txs, i, n, t) - sold_in(txs, i, n, t), dfac(txs, i, n, t))
+    decreases n - i
+{
+    if n == i + 1 {
+        assert(dfac(txs, i, i, t) == 1real);
+    } else {
+        lemma_net_day(txs, i, n - 1, t);
+        assert(!is_day_start(txs, n - 1));
+    }
+}
+/// rescaling the holding by one more line of the day
+pub proof fn lemma_hold_step(base: real, d: real, tx: GbpTransaction)
+    requires d > 0real, (tx.operation is Split ==> tx.operation->Split_ratio.v() > 0real), (tx.operation is Unsplit ==> tx.operation->Unsplit_ratio.v() > 0real)
+    ensures ratio_effect(tx, base * d) == base * ratio_effect(tx, d), (base * d == 0real ==> base == 0real && base * ratio_effect(tx, d) == 0real)
+{
+    match tx.operation {
+        Operation::Split { ratio } => { let r = ratio.v(); assert((base * d) * r == base * (d * r)) by(nonlinear_arith); }
+        Operation::Unsplit { ratio } => { let r = ratio.v(); assert((base * d) / r == base * (d / r)) by(nonlinear_arith) requires r > 0real; }
+        _ => {}
+    }
+    if base * d == 0real { assert(base == 0real) by(nonlinear_arith) requires base * d == 0real, d > 0real; let x = ratio_effect(tx, d); assert(base * x == 0real) by(nonlinear_arith) requires base == 0real; }
+}
+
 } // verus!
